@@ -52,7 +52,7 @@ ASSUMPTIONS = [
     "exact arithmetic, or the two bracketing returns are equal); when another return lies within 1e-9 x max|r| of an "
     "interpolated VaR both memberships are accepted (indifference band, counted)",
     "rejection = any exception; a returned value is a violation",
-    "inputs: float64 or int64 levels in about [1e-13, 1e15], tz-naive timestamps 1995..2040, distinct string column "
+    "inputs: float64 or int64 levels in about [1e-9, 1e11], tz-naive timestamps 1995..2040, distinct string column "
     "names; +inf levels, tz-aware and non-unique column labels are outside the generator",
     "tracking_error / information_ratio / tearsheet(benchmark=...) on exactly two daily levels (one return) are "
     "treated per KNOWN_CANDIDATES (see bottom of the module)",
@@ -748,12 +748,13 @@ small_move = st.integers(-50000, 50000).map(lambda k: 1.0 + k / 1e6)
 
 
 def clamp_moves(moves, first):
-    """Keep the level within 10 decades of its start whatever Hypothesis draws (levels stay finite doubles)."""
+    """Keep the level within 6 decades of its start whatever Hypothesis draws: levels stay finite and
+    level / running max >= 1e-12, so a drawdown never rounds to -1."""
     out, cum = [], 0.0
     for m in moves:
         l = math.log10(m)
-        if abs(cum + l) > 10.0:
-            m = 1.0 / m if abs(cum - l) <= 10.0 else 1.0
+        if abs(cum + l) > 6.0:
+            m = 1.0 / m if abs(cum - l) <= 6.0 else 1.0
             l = math.log10(m)
         cum += l
         out.append(m)
@@ -818,7 +819,8 @@ def time_offsets(draw, kind, n):
 def base_cases(draw, tier="quick", need_rf=False, need_bm=False, allow_float_rf=True):
     kind = draw(st.sampled_from(KINDS))
     nmax = 400
-    n = draw(st.one_of(st.integers(2, 6), st.integers(2, 40), st.integers(2, 40), st.integers(41, nmax)))
+    n = draw(st.one_of(st.integers(2, 6), st.integers(2, 40), st.integers(2, 40), st.integers(2, 40),
+                       st.integers(3, 12), st.integers(41, nmax)))
     start, offs = draw(time_offsets(kind, n))
     variant = draw(st.sampled_from(["bounded", "bounded", "heavy", "const"]))
     ncols = draw(st.sampled_from([0, 0, 1, 2, 3]))          # 0 = Series
@@ -836,7 +838,8 @@ def base_cases(draw, tier="quick", need_rf=False, need_bm=False, allow_float_rf=
     elif rf_form == "float":
         case["rf"] = {"form": "float", "value": draw(st.sampled_from([0.0, 0.02, -0.005, 0.5]))}
     else:
-        moves = draw(st.lists(st.integers(0, 300).map(lambda k: 1.0 + k / 1e6), min_size=n - 1, max_size=n - 1))
+        pattern = draw(st.lists(st.integers(0, 300).map(lambda k: 1.0 + k / 1e6), min_size=1, max_size=6))
+        moves = [pattern[i % len(pattern)] for i in range(n - 1)]
         case["rf"] = {"form": rf_form, "first": draw(st.sampled_from([1.0, 100.0])), "moves": moves}
     bm_form = draw(st.sampled_from(["series", "df1"] + ([] if need_bm else ["none", "none"])))
     if bm_form == "none":
@@ -848,8 +851,8 @@ def base_cases(draw, tier="quick", need_rf=False, need_bm=False, allow_float_rf=
         elif mode == "same":
             moves = list(cols[0]["moves"])
         else:
-            bumps = draw(st.lists(st.integers(-200, 200), min_size=n - 1, max_size=n - 1))
-            moves = [max(m + b / 1e6, 1e-3) for m, b in zip(cols[0]["moves"], bumps)]
+            bumps = draw(st.lists(st.integers(-200, 200), min_size=1, max_size=12))
+            moves = [max(m + bumps[i % len(bumps)] / 1e6, 1e-3) for i, m in enumerate(cols[0]["moves"])]
         case["bm"] = {"form": bm_form, "mode": mode, "first": draw(st.sampled_from([1.0, 50.0])), "moves": moves}
     case["q"] = draw(st.one_of(st.none(), st.none(),
                                st.sampled_from([0.05, 0.02, 0.5, 0.25, 0.125, 0.0625, 0.03125, 0.75]),
@@ -912,6 +915,6 @@ FINDING_PROBES = {"D11": probe_tracking_error_two_levels}
 
 PARTS = [
     Part("definitions", strategy=lambda tier: definition_cases(tier), run=run_definitions, quick=1500, thorough=30000),
-    Part("scale", strategy=lambda tier: scale_cases(tier), run=run_scale, quick=800, thorough=16000),
-    Part("reject", strategy=lambda tier: reject_cases(tier), run=run_reject, quick=800, thorough=16000),
+    Part("scale", strategy=lambda tier: scale_cases(tier), run=run_scale, quick=700, thorough=16000),
+    Part("reject", strategy=lambda tier: reject_cases(tier), run=run_reject, quick=700, thorough=16000),
 ]
